@@ -117,7 +117,9 @@ fn cases_random(rng: &mut Rng, sink: &mut dyn FnMut(J) -> bool) {
         for _ in 0..k {
             sets.push(cur.clone());
             // deselect arbitrary nodes (with their descendants)
-            let drops: Vec<Path> = cur.iter().filter(|_| rng.chance(1, 4)).cloned().collect();
+            let mut ordered: Vec<Path> = cur.iter().cloned().collect();
+            ordered.sort();
+            let drops: Vec<Path> = ordered.into_iter().filter(|_| rng.chance(1, 4)).collect();
             cur = cur.iter().filter(|p| !drops.iter().any(|d| p.len() >= d.len() && p[..d.len()] == d[..])).cloned().collect();
         }
         n += 1;
